@@ -1,6 +1,7 @@
 """Shared pipeline pieces for the JsonPath family (C05, C11, C13): spec/JsonPath.tla, harness/cmd/jpath."""
 import json
 import os
+import subprocess
 
 import verif
 from verif import Infra, log
@@ -86,13 +87,13 @@ def exec_cases(ctx, cases, mode):
             for line in f:
                 if b'"st":0,"sta":false' in line:
                     zero.append(line)
+        # prefer the cases whose focus container is a non-empty homogeneous array (typed slice / reflect array with members)
+        pref = [l for l in zero if b'"a":[{"i":50}' in l]
+        zero = pref or zero
         k = 6 if ctx.quick else 24
         step = max(1, len(zero) // k)
         with open(trace, "ab") as fo:
             for j, line in enumerate(zero[::step][:k]):
-                q = ctx.run([jb, "exec", "-set", "c11", "-one", ("tslice", "array")[j % 2]], stdin=None, timeout=60, check=False,
-                            env=None) if False else None
-                import subprocess
                 q = subprocess.run([jb, "exec", "-set", "c11", "-one", ("tslice", "array")[j % 2]], input=line,
                                    capture_output=True, timeout=120, env=ctx.goenv())
                 if q.returncode != 0 or not q.stdout.strip():
@@ -207,6 +208,3 @@ def compact(n):
         return None
     return n.get("x")
 
-
-def count_evals(trace_res, per_case):
-    return trace_res["n"] * per_case
